@@ -248,7 +248,12 @@ def run_suite(suite, seed, tier, count, extra_cases=None, timeout=None, profile=
             with open(os.path.join(cpdir, fn)) as f:
                 corpus += [l.rstrip("\n") for l in f if l.strip() and not l.startswith("#")]
     gen = os.path.join(cdir, "gen.txt")
-    sh([hb, "gen", suite, str(seed), str(count), tier, gen], timeout=600)
+    pg = sh([hb, "gen", suite, str(seed), str(count), tier, gen], timeout=600, check=False)
+    if pg.returncode != 0:
+        # the generators call no code under test on purpose; if one dies all the same (a panic inside the library while
+        # building a case), that is an observation about the tree, reported like a harness process that died
+        log(f"case generator of suite {suite} ended abnormally (rc={pg.returncode})")
+        return ([f"<generator of suite {suite}>"], ["<generator died: " + pg.stdout[-300:].replace("\n", " | ") + ">"], ["<no model run>"])
     with open(gen) as f:
         generated = [l.rstrip("\n") for l in f]
     with open(allcases, "w") as f:
